@@ -15,6 +15,9 @@ use crate::T;
 ///     **fragment** FragmentName TypeCondition Directives? SelectionSet
 pub(crate) fn fragment_definition(p: &mut Parser) {
     let _g = p.start_node(SyntaxKind::FRAGMENT_DEFINITION);
+    if let Some(TokenKind::StringValue) = p.peek() {
+        p.err_and_pop("a Fragment Definition cannot have a description");
+    }
     p.bump(SyntaxKind::fragment_KW);
 
     fragment_name(p);
